@@ -543,3 +543,88 @@ def _prov_ok(step, tok, rec, env):
             if rec == _same_tag_inputs(other, tok.tag):
                 return True
     return False
+
+
+# ---------------------------------------------------------------- ExecuteStep alone, slow scheduler notifications
+
+
+def prop_execute_step(n, dfail, dnot, dnot0, fail_job, with_output_consumer=True) -> bool:
+    """The real ExecuteStep.run with n concurrent jobs (job tokens and inputs already available) and an
+    ENVIRONMENT whose scheduler notifications take time: job `fail_job` fails after `dfail` scheduling
+    steps, the COMPLETED notification of the other finished job takes `dnot` steps, the FAILED one
+    `dnot0` steps; the remaining jobs are long-running (60 scheduling steps, far longer than everything else). Whatever these
+    durations, the step must terminate (FAILED), close its output port and leave no task pending."""
+    import asyncio
+
+    from lib.detloop import DetLoop
+    from lib.stubs import StubContext, new_workflow
+    from streamflow.core.workflow import Command, CommandOutput, Job, Status, Token
+    from streamflow.workflow.port import JobPort
+    from streamflow.workflow.step import ExecuteStep
+    from streamflow.workflow.token import JobToken, TerminationToken
+
+    ctx = StubContext()
+    wf = new_workflow(ctx)
+    loop = DetLoop()
+    notes = []
+
+    class Sched:
+        async def notify_status(self, job_name, status):
+            notes.append((job_name, status))
+            d = 0
+            if status == Status.COMPLETED:
+                d = dnot
+            elif status == Status.FAILED:
+                d = dnot0
+            for _ in range(d):
+                await asyncio.sleep(0)
+
+    ctx.scheduler = Sched()
+    tags = ["0." + str(i) for i in range(n)]
+
+    class Cmd(Command):
+        async def execute(self, job):
+            idx = tags.index(job.name.rsplit("/", 1)[-1])
+            if idx == fail_job:
+                for _ in range(dfail):
+                    await asyncio.sleep(0)
+                return CommandOutput(value="boom", status=Status.FAILED)
+            if idx == (fail_job + 1) % n:
+                return CommandOutput(value=idx, status=Status.COMPLETED)
+            for _ in range(60):  # long-running (much longer than everything else), but finite
+                await asyncio.sleep(0)
+            return CommandOutput(value=idx, status=Status.COMPLETED)
+
+    with loop:
+        jp = wf.create_port(cls=JobPort, name="jobs")
+        px = wf.create_port(name="x")
+        py = wf.create_port(name="y")
+        ex = wf.create_step(cls=ExecuteStep, name="/ex", job_port=jp)
+        ex.command = Cmd(ex)
+        ex.add_input_port("x", px)
+        ex.add_output_port("y", py)
+        loop.run_until_complete(wf.save(ctx.database))
+        for t in tags:
+            job = Job(name="/ex/" + t, workflow_id=1, inputs={}, input_directory="/i", output_directory="/o", tmp_directory="/t")
+            jt = JobToken(value=job, tag=t)
+            jt.persistent_id = 1000 + len(jp.token_list)  # already persisted upstream
+            jp.put(jt)
+            tok = Token(value=1, tag=t)
+            loop.run_until_complete(tok.save(ctx.database, port_id=px.persistent_id))
+            px.put(tok)
+        px.put(TerminationToken(Status.COMPLETED))
+        jp.put(TerminationToken(Status.COMPLETED))
+        run = loop.create_task(ex.run())
+        # the step must finish by itself: a quiescent loop with run() pending is a hang
+        try:
+            loop.run_until_complete(run)
+        except asyncio.CancelledError:
+            return False  # the step's own run() was torn down by a stray cancellation
+        if not ex.terminated or ex.status != Status.FAILED:
+            return False
+        if not py.token_list or not isinstance(py.token_list[-1], TerminationToken):
+            return False
+        loop.run_until_quiescent()
+        if loop.pending_tasks():
+            return False
+        return True
